@@ -2,3 +2,7 @@ pub mod samples;
 pub mod site;
 mod string_map;
 mod value;
+
+#[cfg(kani)]
+#[path = "/verif/harness/bcf/encoder.rs"]
+mod verif_kani;
